@@ -196,7 +196,8 @@ def pathC : String → Option Value
       an address (`addr "MAP_FAILED"` on failure, else the address of the new mapping);
     * `std::ptr::null_mut()`: the null pointer (only ever passed to `mmap`);
     * `MaybeUninit::<T>::uninit()`: a buffer without content;
-    * `FdGuard(fd)`: the constructor of the tuple struct, i.e. the tuple of its fields (`fdguard.0`). -/
+    * `FdGuard(fd)`: the constructor of the tuple struct `struct FdGuard(i32)`: the struct value with the field `0`
+      (so that `fdguard.0` reads it and a method `fdguard.m()` is `FdGuard::m`). -/
 def callC (w : Inputs) : String → List Value → St → Option Res
   | "libc::open", [p, flags], st =>
     match asInt .i32 (w.inp st.pos) with
@@ -214,7 +215,7 @@ def callC (w : Inputs) : String → List Value → St → Option Res
     | _ => none
   | "ptr::null_mut", [], st => some (.val (.ext "null" []) st)
   | "MaybeUninit::uninit", [], st => some (.val (.ext "MaybeUninit" []) st)
-  | "FdGuard", [fd], st => some (.val (.tuple [fd]) st)
+  | "FdGuard", [fd], st => some (.val (.struct "FdGuard" [("0", fd)]) st)
   | _, _, _ => none
 
 /-- * `CStr::as_ptr(&self)`: the pointer to the path string (only ever passed to `open`);
@@ -357,7 +358,15 @@ def methodD (w : Inputs) : Value → String → List Value → St → Option Res
   | .ext "OpenOptions" [], "write", [.bool _], st => some (.val (.ext "OpenOptions" []) st)
   | .ext "OpenOptions" [], "open", [p], st => fsCall w "open_write" [p] st
   | .ext "Metadata" [.int .u64 n], "len", [], st => some (.val (.int .u64 n) st)
+  -- std `str::is_empty`
+  | .str s, "is_empty", [], st => some (.val (.bool (decide (s = ""))) st)
   | _, _, _, _ => none
+
+/-- `&mut file` on an open `File`: a `File` value is a HANDLE (its state is not in the value, every operation on
+    it is an event), so the mutable borrow of the handle is the handle (`write_header(&mut file, size)`) -/
+def refMutD (_ : Inputs) : Value → St → Option Res
+  | .ext "File" [], st => some (.val (.ext "File" []) st)
+  | _, _ => none
 
 /-! ## the dictionary -/
 
@@ -399,6 +408,6 @@ def derefAll (w : Inputs) (v : Value) (st : St) : Option Res :=
     functions of this group (every other literal meets a typed operand and takes its type). -/
 def ext : Ext :=
   { Ext.none with path := pathAll, deref := derefAll, method := method, call := call, macroCall := macroC,
-                  fieldOf := fieldOfC, litFallback := some .i32 }
+                  fieldOf := fieldOfC, litFallback := some .i32, refMut := refMutD }
 
 end ClockBound.Rs.DictShm
